@@ -6,6 +6,39 @@ from gosym.runner import Check, load_program
 from checks.tcheck import run_property
 import checks.oracles as O
 
+OPNAME = {'PruneDeletedTopics': 'prune_deleted_topics', 'PruneDeletedSubscriptions': 'prune_deleted_subscriptions', 'PruneCompletedMessages': 'prune_completed_messages',
+          'PruneDeletedSubscriptionDeliveries': 'prune_deleted_subscription_deliveries', 'PruneExpiredDeliveries': 'prune_expired_deliveries',
+          'PruneCompletedDeliveries': 'prune_completed_deliveries'}
+
+
+def rounds_replay(ob, db, init, t0, age, order, must_go, label):
+    """replay of a convergence counterexample: the initial rows, four rounds of the real jobs in the given order, then: is a row that
+    had to be reclaimed (per the model's initial state) still there?"""
+    from gosym import replay
+
+    def rp(m, desc):
+        rows = replay.rows_from_model(m, db.schema, init)
+        a = replay.mval(m, age)
+        ops = [{'op': OPNAME[typ], 'min_age': str(a), 'max_delete': 100} for _ in range(4) for _, typ in order]
+        scn = {'base_now': str(replay.mval(m, t0)), 'rows': rows, 'ops': ops}
+        out = replay.run_scenarios([scn])[0]
+        path = replay.save_scenario('C15', label, scn, desc)
+        if 'error' in out:
+            raise RuntimeError(out['error'][-400:])
+        left = False
+        for e, r0, rec in must_go:
+            if replay.mval(m, zb(rec)) is True:
+                rid = replay.uuid_str(replay.mval(m, r0.v['id']))
+                left = left or any(x['id'] == rid for x in out['post'].get(e) or [])
+        return left, path
+    return rp
+
+
+def zb(x):
+    import z3
+    return x if not isinstance(x, bool) else z3.BoolVal(x)
+
+
 def convergence(chk, prog):
     """bounded rounds: from an arbitrary state in which everything has been dead for longer than the age threshold,
     repeated rounds of the six jobs (worst-case order: parents first) reclaim every row"""
@@ -35,6 +68,7 @@ def convergence(chk, prog):
             ex.assume(z3.Implies(d.exists, Or(And(Not(d.isnull('completed_at')), d.v['completed_at'] <= old), d.v['expires_at'] < old)))
         order = JOBS if ex.choose(2) == 0 else list(reversed(JOBS))
         errors = 0
+        init = db.snapshot()
         for rnd in range(4):
             for ctor, typ in order:
                 p = tr.params(ex, 'PruneCommonParams', MinAge=age, MaxDelete=100)
@@ -45,10 +79,73 @@ def convergence(chk, prog):
                     db.restore(snap)
                     errors += 1
         left = Or(*[r.exists for e in reldb.ENTITIES for r in db.t[e]])
+        must_go = [(e, r0, r0.exists) for e in reldb.ENTITIES for r0 in init[e]]
         ob.verify(ex, 'four-rounds-reclaim-everything-dead', Not(left),
-                  lambda m: {'order': [t for _, t in order], 'job_errors': errors})
+                  lambda m: {'order': [t for _, t in order], 'job_errors': errors},
+                  replay=rounds_replay(ob, db, init, t0, age, order, must_go, 'convergence-all-dead'))
     chk.run('convergence:rounds-reclaim-all', prog, harness, bounds=dict(sizes, rounds=4, orders='children-first and parents-first'), setup=world.setup, max_paths=300000)
     chk.assumptions.append('convergence is decided for 4 rounds in two fixed job orders (children first / parents first) on tables of 1 topic, 1 subscription, 1 message, 2 deliveries; snapshots are outside (nothing prunes them; DeleteTopic removes a topic\'s snapshots)')
+
+
+def convergence_mixed(chk, prog):
+    """dead rows next to live ones: from an arbitrary state in which every row is either live or dead for longer than the age
+    threshold, four rounds of the jobs reclaim every row that is reclaimable (dead, and everything that refers to it reclaimable) -
+    a job that keeps failing on a row it should not have selected would leave the other dead rows of its batch behind"""
+    import z3
+    from gosym.core import And, Or, Not, Implies
+    from gosym import reldb, world, stdlib
+    from gosym.world import run_action, A
+    import checks.transitions as tr
+    sizes = {'Topic': 2, 'Subscription': 1, 'Message': 1, 'Delivery': 1} if not chk.thorough else {'Topic': 2, 'Subscription': 2, 'Message': 1, 'Delivery': 2}
+    JOBS = [('NewPruneDeletedTopics', 'PruneDeletedTopics'), ('NewPruneDeletedSubscriptions', 'PruneDeletedSubscriptions'),
+            ('NewPruneCompletedMessages', 'PruneCompletedMessages'), ('NewPruneDeletedSubscriptionDeliveries', 'PruneDeletedSubscriptionDeliveries'),
+            ('NewPruneExpiredDeliveries', 'PruneExpiredDeliveries'), ('NewPruneCompletedDeliveries', 'PruneCompletedDeliveries')]
+
+    def harness(ex, ob):
+        db = reldb.sym_db(ex, prog, sizes, exists=None)
+        age = z3.Int('min_age')
+        ex.assume(z3.And(age >= 0, age <= 10**15))
+        t0 = stdlib.time_now(ex, [], '')
+        old = t0 - age - 60 * 10**9
+        far = t0 + 3600 * 10**9
+        T, S, M, D = db.t['Topic'], db.t['Subscription'], db.t['Message'], db.t['Delivery']
+        tdead = [And(Not(t.isnull('deleted_at')), t.v['deleted_at'] <= old) for t in T]
+        sdead = [And(Not(s.isnull('deleted_at')), s.v['deleted_at'] <= old) for s in S]
+        ddead = [Or(And(Not(d.isnull('completed_at')), d.v['completed_at'] <= old), d.v['expires_at'] < old) for d in D]
+        for t, dead in zip(T, tdead):
+            ex.assume(Implies(t.exists, Or(dead, t.isnull('deleted_at'))))
+        for s_, dead in zip(S, sdead):
+            ex.assume(Implies(s_.exists, Or(dead, s_.isnull('deleted_at'))))
+        for m in M:
+            ex.assume(Implies(m.exists, m.v['published_at'] <= old))
+        for d, dead in zip(D, ddead):
+            ex.assume(Implies(d.exists, Or(dead, And(d.isnull('completed_at'), d.v['expires_at'] > far))))
+        # what must be gone in the end (least fixpoint over the reference graph, computed on the initial state)
+        d_rec = [And(d.exists, Or(dead, *[And(s_.exists, ex.eq(s_.v['id'], d.v['subscription_id']), sd) for s_, sd in zip(S, sdead)])) for d, dead in zip(D, ddead)]
+        m_rec = [And(m.exists, *[Implies(And(d.exists, ex.eq(d.v['message_id'], m.v['id'])), dr) for d, dr in zip(D, d_rec)]) for m in M]
+        s_rec = [And(s_.exists, sd, *[Implies(And(d.exists, ex.eq(d.v['subscription_id'], s_.v['id'])), dr) for d, dr in zip(D, d_rec)]) for s_, sd in zip(S, sdead)]
+        t_rec = [And(t.exists, td, *([Implies(And(s_.exists, ex.eq(s_.v['topic_id'], t.v['id'])), sr) for s_, sr in zip(S, s_rec)] +
+                                     [Implies(And(m.exists, ex.eq(m.v['topic_id'], t.v['id'])), mr) for m, mr in zip(M, m_rec)])) for t, td in zip(T, tdead)]
+        order = JOBS if ex.choose(2) == 0 else list(reversed(JOBS))
+        errors = 0
+        init = db.snapshot()
+        for rnd in range(4):
+            for ctor, typ in order:
+                p = tr.params(ex, 'PruneCommonParams', MinAge=age, MaxDelete=100)
+                snap = db.snapshot()
+                act, tx, err = run_action(ex, db, A + ctor, [p], '(*' + A + typ + ').Execute')
+                if err is not None:
+                    db.restore(snap)
+                    errors += 1
+        nows = stdlib.clock(ex)['nows']
+        ex.assume(nows[-1] - t0 < 60 * 10**9)      # the rounds take less than a minute of clock time (nothing live dies meanwhile)
+        desc = lambda m: {'order': [t for _, t in order], 'job_errors': errors}
+        for e, recs in (('Topic', t_rec), ('Subscription', s_rec), ('Message', m_rec), ('Delivery', d_rec)):
+            for i, rec in enumerate(recs):
+                ob.verify(ex, 'reclaimable-%s-is-reclaimed[%d]' % (e.lower(), i), Implies(rec, Not(db.t[e][i].exists)), desc,
+                          replay=rounds_replay(ob, db, init, t0, age, order, [(e, init[e][i], rec)], 'convergence-mixed-%s%d' % (e.lower(), i)))
+    chk.run('convergence:dead-rows-next-to-live-ones', prog, harness, bounds=dict(sizes, rounds=4, orders='children-first and parents-first'),
+            setup=world.setup, max_paths=300000)
 
 
 if __name__ == '__main__':
@@ -56,4 +153,5 @@ if __name__ == '__main__':
     prog = load_program()
     run_property(chk, prog, lambda T: ([O.c15_prune, O.c01_frame] + ([O.c14_expire] if T.kind == 'expire-subs' else [])) if T.kind in ('prune', 'expire-subs') else [])
     convergence(chk, prog)
+    convergence_mixed(chk, prog)
     chk.finish()
